@@ -96,7 +96,8 @@ def enumerate_cases(tier):
     for case in c07.enumerate_cases("quick"):
         if case.get("family") == "holder-waiter-passer-by" or (
                 case["mode"] == "enum" and "i_mod" not in case and c07.conflicting(*case["calls"])
-                and case["start_name"] in ("empty", "p=X", "p=Y")):
+                and case["start_name"] in ("empty", "p=X", "p=Y")) or (
+                case["mode"] == "handover" and case["start_name"] == "empty"):
             yield dict(case, family="owned", src="C07")
     for case in c12.enumerate_cases("quick"):
         if case.get("family") == "holder-waiter-passer-by" or (case["mode"] == "enum" and case.get("max_preempt", 1) == 1
@@ -203,6 +204,20 @@ def _owned_case(case, ctx):
             if any(ex.waited) or any(o == ("err", conc.IN_PROGRESS) for o in ex.outcomes):
                 ctx.classify("owned-mp-contention")
                 ctx.nontrivial(["owned", case["start_name"], [conc.op_pattern(c, world) for c in calls], order, pre])
+    elif case["mode"] == "handover":
+        for a in case["ho_a"]:
+            for k in case["ho_k"]:
+                pre = c07.handover_preemptions(a, k)
+                ex = conc.run_program(world, calls, [0, 1, 2], pre, mp_mode=True)
+                if ex.used_preemptions == 0:
+                    break
+                ctx.count()
+                judge(ctx, world, case, calls, [0, 1, 2], [list(x) for x in pre], ex, mp_mode=True)
+                if ex.waited[1]:
+                    ctx.classify("owned-mp-contention")
+                    ctx.nontrivial(["owned-handover", [conc.op_pattern(c, world) for c in calls], a, k])
+                if ex.used_preemptions < 2:
+                    break
     else:
         ex = conc.run_program(world, calls, case["order"], [tuple(p) for p in case["preemptions"]], mp_mode=True)
         ctx.count()
